@@ -473,17 +473,20 @@ class Input(object):
                         unlock_script = unlock_script_obj.serialize_list()
                     else:
                         unlock_script = unlock_script_obj.serialize()
+                # A witness that already carries these signatures and the redeemscript (a parsed one) is kept as it is
+                keep_witnesses = not unlock_script or (self.witnesses and self.redeemscript in self.witnesses and
+                                                       all(s in self.witnesses for s in signatures))
                 if self.witness_type == 'segwit':
                     self.locking_script = b''
                     for k in self.keys:
                         self.locking_script += varstr(k.public_byte) + b'\xad\xab'
                     if len(self.locking_script) > 3:
                         self.locking_script = self.locking_script[:-2] + b'\xac'
-                    if signatures:
+                    if signatures and not keep_witnesses:
                         self.witnesses = unlock_script
                 elif self.witness_type == 'p2sh-segwit':
                     self.unlocking_script = varstr(b'\0' + varstr(self.public_hash))
-                    if signatures:
+                    if signatures and not keep_witnesses:
                         self.witnesses = unlock_script
                 elif unlock_script != b'' and not (self.unlocking_script and self.redeemscript in self.unlocking_script and
                                                    all(s in self.unlocking_script for s in signatures)):
@@ -1059,6 +1062,8 @@ class Transaction(object):
                 elif inputs[n].script_type == 'p2wpkh' or inputs[n].script_type == 'p2wsh':
                     inputs[n].script_type = 'p2sh_p2wsh'
                     inputs[n].witness_type = 'p2sh-segwit'
+                    # The last witness item is the witness script, whatever kind of script it is
+                    inputs[n].redeemscript = inputs[n].witnesses[-1]
                 elif 'unknown' in script.script_types and not coinbase:
                     inputs[n].script_type = 'unknown'
 
